@@ -569,6 +569,11 @@ def run(res, tier):
     _c06.grid_range(tbf.scan("core"), _sub)
     tbf.reexport(res, _sub, ("C06.6",), "C01.9.binned-in-the-grid", min_instances=2)
     facts = tbf.scan("core")
+    res.rule("C01.11 the upward and downward passes walk every level from the upper working level to the level above the leaves ([U, H-2]; rule C12.3 on the single-tree executors): a pass that starts lower leaves the cells at and below the upper working level without the sum of their particles")
+    import c12 as _c12b
+    _sub12b = tbf.Result("C12")
+    tbf.donor_run(res, _c12b, _sub12b)
+    tbf.reexport(res, _sub12b, ("C12.3",), "C01.11.levels-walked", min_instances=8)
     res.rule("C01.10 the OpenMP executor, the default one, applies per stage what the sequential reference applies: same wrapper applications, level interval, guards, mappers and the same walk over the groups (rule C03.a on TbfOpenmpAlgorithm) - a group skipped by the walk loses its in-leaf pairs whatever the schedule")
     import c03 as _c03, stages as _stages
     _sub3 = tbf.Result("C03")
